@@ -1,4 +1,5 @@
 import Tpp.Lemmas.Step
+import Tpp.Lemmas.Modes
 /-!
 The rendition half of the agreement invariant on its own: it is preserved by every operation whatever the
 library believes about sizes and positions – no size ever declared (the README's use of the library), a wrong
@@ -265,5 +266,38 @@ theorem agreeRend_run (beh : Behaviour) (evs : List REv) :
     · show (RSys.run beh (RSys.step beh st ev) evs).2.log = _
       rw [hl2, hl1]; simp
     · simp [hc1, hc2]
+
+end Tpp
+
+namespace Tpp
+
+/-- the in-domain event an `REv` corresponds to for the purpose of mode accounting -/
+def REv.toEv : REv → Ev
+  | .op o => .op o
+  | .termResize w h cells cx cy saved pending => .resize w h cells cx cy saved pending
+
+/-- the effect of one event on the terminal's modes – with no assumption about sizes or positions -/
+theorem rstep_modes (beh : Behaviour) (s : TermState) (vt : VT) (hA : AgreeRend s vt) (ev : REv) (hw : ev.WF s) :
+    (RSys.step beh (s, vt) ev).2.modes = modesAfter beh vt.modes ev.toEv := by
+  cases ev with
+  | termResize w h cells cx cy saved pending => rfl
+  | op o =>
+    by_cases hp : o.positionFree = true
+    · have hF := agree_forgetPos s vt hA
+      have hw' := wf_of_wfr s vt o hp hw
+      obtain ⟨i1, _, _⟩ := step_indep beh s (s.forgetPos vt) o hp rfl rfl
+      have hm := step_modes beh _ vt hF (.op o) hw'
+      simp only [Sys.step] at hm
+      simp only [RSys.step, i1, REv.toEv]
+      exact hm
+    · cases o with
+      | moveCursor p =>
+        obtain ⟨hx, hy⟩ := hw
+        obtain ⟨cx, cy, pd, hf⟩ := feed_moveCursor_any vt hA.ground s.cursor p hx hy
+        simp only [RSys.step, step, REv.toEv]
+        rw [hf]; rfl
+      | setSize e => rfl
+      | rawWrite bs => exact absurd hw (by simp [REv.WF, Op.WFR])
+      | _ => simp [Op.positionFree] at hp
 
 end Tpp
